@@ -43,6 +43,13 @@ type c18Info struct {
 	Dynamic  []string // registrations whose receiver type is not statically known
 	Targets  []string
 	Sites    []string // RegisterName call sites (informational: the "outside" part of the claim)
+	Order    []c18Reg // registrations in the order node start-up performs them (walk of Node.startRPC), the rest appended
+	OrderSrc string
+}
+
+type c18Reg struct {
+	T  types.Type
+	NS string
 }
 
 var c18SignNames = map[string]bool{"SignHash": true, "SignTx": true, "SignHashWithPassphrase": true, "SignTxWithPassphrase": true,
@@ -87,6 +94,7 @@ func c18Scan(e *Engine) (*c18Info, error) {
 		NS string
 	}
 	var regs []reg
+	svcStores := map[*ssa.Store]c18Reg{}
 	seenReg := map[string]bool{}
 	addReg := func(T types.Type, ns, where string) {
 		k := T.String() + "|" + ns
@@ -134,6 +142,7 @@ func c18Scan(e *Engine) (*c18Info, error) {
 					switch v := x.Val.(type) {
 					case *ssa.MakeInterface:
 						addReg(v.X.Type(), ns, pos)
+						svcStores[x] = c18Reg{v.X.Type(), ns}
 					case *ssa.Const:
 						// nil service: nothing registered
 					default:
@@ -331,6 +340,70 @@ func c18Scan(e *Engine) (*c18Info, error) {
 		}
 	}
 	_ = callgraph.CalleesOf
+
+	// ---- 5. registration order: walk Node.startRPC in instruction order, descending
+	// into every callee that returns []rpc.API (static or resolved by the call graph).
+	apiSlice := types.NewSlice(apiT.Type())
+	returnsAPIs := func(f *ssa.Function) bool {
+		r := f.Signature.Results()
+		return f.Blocks != nil && r.Len() == 1 && types.Identical(r.At(0).Type(), apiSlice)
+	}
+	seenOrd := map[string]bool{}
+	var walk func(f *ssa.Function, depth int)
+	onStack := map[*ssa.Function]bool{}
+	walk = func(f *ssa.Function, depth int) {
+		if onStack[f] || depth > 8 {
+			return
+		}
+		onStack[f] = true
+		defer delete(onStack, f)
+		node := cg.Nodes[f]
+		for _, b := range f.Blocks {
+			for _, in := range b.Instrs {
+				if st, ok := in.(*ssa.Store); ok {
+					if r, ok := svcStores[st]; ok {
+						info.Order = append(info.Order, r)
+						seenOrd[r.T.String()+"|"+r.NS] = true
+					}
+					continue
+				}
+				ci, ok := in.(ssa.CallInstruction)
+				if !ok {
+					continue
+				}
+				var callees []*ssa.Function
+				if sc := ci.Common().StaticCallee(); sc != nil {
+					callees = append(callees, sc)
+				} else if node != nil {
+					for _, ed := range node.Out {
+						if ed.Site == ci {
+							callees = append(callees, ed.Callee.Func)
+						}
+					}
+					sort.Slice(callees, func(i, j int) bool { return callees[i].String() < callees[j].String() })
+				}
+				for _, c := range callees {
+					if returnsAPIs(c) {
+						walk(c, depth+1)
+					}
+				}
+			}
+		}
+	}
+	if np := e.pkgs[repoMod+"/node"]; np != nil && np.Type("Node") != nil {
+		if root := e.prog.LookupMethod(types.NewPointer(np.Type("Node").Type()), np.Pkg, "startRPC"); root != nil && root.Blocks != nil {
+			info.OrderSrc = root.String()
+			walk(root, 0)
+		}
+	}
+	if len(info.Order) == 0 {
+		info.Dynamic = append(info.Dynamic, "cannot derive the registration order: (*node.Node).startRPC not found or registers nothing")
+	}
+	for _, r := range regs { // registered elsewhere (e.g. rpc.NewServer's own service): appended
+		if !seenOrd[r.T.String()+"|"+r.NS] {
+			info.Order = append(info.Order, c18Reg{r.T, r.NS})
+		}
+	}
 	return info, nil
 }
 
@@ -494,7 +567,41 @@ func c18Emit(e *Engine, info *c18Info) (map[string][]byte, error) {
 	for _, m := range info.Methods {
 		fmt.Fprintf(&sb, "\t\t{NS: %q, Recv: %q, Name: %q, MaySign: %v, Decided: %v, Dummy: C18M_%s{}},\n", m.NS, m.RecvName, m.Fn.Name(), m.MaySign, decided[m], m.Fn.Name())
 	}
-	sb.WriteString("\t}\n}\n")
+	sb.WriteString("\t}\n")
+	// registration sequence with one generated receiver type per real service type (all its exported method names)
+	typeIdx := map[string]int{}
+	var typeDecl strings.Builder
+	sb.WriteString("\tc18Order = []C18Reg{\n")
+	var ordNote []string
+	for _, r := range info.Order {
+		t := r.T
+		if pt, ok := t.(*types.Pointer); ok {
+			t = pt.Elem()
+		}
+		nm, ok := t.(*types.Named)
+		if !ok || nm.Obj().Pkg() == nil {
+			continue
+		}
+		key := nm.Obj().Pkg().Path() + "." + nm.Obj().Name()
+		idx, ok := typeIdx[key]
+		if !ok {
+			idx = len(typeIdx)
+			typeIdx[key] = idx
+			fmt.Fprintf(&typeDecl, "// C18T_%d stands for %s\ntype C18T_%d struct{}\n\n", idx, key, idx)
+			for _, n := range typeMethods[key] {
+				fmt.Fprintf(&typeDecl, "func (C18T_%d) %s() {}\n", idx, n)
+			}
+			typeDecl.WriteString("\n")
+		}
+		if len(typeMethods[key]) == 0 {
+			continue
+		}
+		recv := nm.Obj().Pkg().Name() + "." + nm.Obj().Name()
+		fmt.Fprintf(&sb, "\t\t{NS: %q, Recv: %q, Names: %#v, Dummy: C18T_%d{}},\n", r.NS, recv, typeMethods[key], idx)
+		ordNote = append(ordNote, r.NS+":"+recv)
+	}
+	sb.WriteString("\t}\n}\n\n")
+	sb.WriteString(typeDecl.String())
 	files["rpc/zz_verif_c18_gen.go"] = []byte(sb.String())
 
 	sort.Strings(undet)
@@ -513,6 +620,7 @@ func c18Emit(e *Engine, info *c18Info) (map[string][]byte, error) {
 	}
 	c18Notes = append(c18Notes, fmt.Sprintf("%d exported methods on %d registered service types; %d statically reach a signing entry point, %d of them decided by executing the body", len(info.Methods), len(typeMethods), nMay, len(decided)))
 	c18Notes = append(c18Notes, "RegisterName call sites: "+strings.Join(info.Sites, "; "))
+	c18Notes = append(c18Notes, "registration order (walk of "+info.OrderSrc+", others appended): "+strings.Join(ordNote, ", "))
 	generatorNotes = append(generatorNotes[:0], c18Notes...)
 	if e.verbose {
 		for _, n := range c18Notes {
